@@ -542,7 +542,13 @@ func (g *gen) run() {
 
 // ---- statistical supporting run
 
-type statCfg struct{ cp, d, rep, runs int }
+type statCfg struct {
+	cp, d, rep, runs int
+	// round 6 (stat6.go)
+	reset int  // > 0: one counter serves a block of `reset` runs separated by Reset (a fresh counter per block)
+	dirty bool // between two runs of a block the counter is used on another stream of varying length
+	traj  bool // the stream is d distinct values, each once, in order; the (Len, Count) trajectories of the runs are compared
+}
 
 // one-sided Gaussian tail
 func normTail(z float64) float64 { return 0.5 * math.Erfc(z/math.Sqrt2) }
@@ -597,7 +603,7 @@ func stat(args []string) {
 				d = 12 * cp
 			}
 			for _, rep := range []int{1, 3} {
-				cfgs = append(cfgs, statCfg{cp, d, rep, runs * scale})
+				cfgs = append(cfgs, statCfg{cp: cp, d: d, rep: rep, runs: runs * scale})
 			}
 		}
 	}
@@ -607,16 +613,18 @@ func stat(args []string) {
 	for _, cp := range []int{4, 5, 6} {
 		for _, d := range []int{cp - 1, cp, cp + 1, 4 * cp, 30 * cp} {
 			for _, rep := range []int{1, 3} {
-				cfgs = append(cfgs, statCfg{cp, d, rep, 30000 * scale})
+				cfgs = append(cfgs, statCfg{cp: cp, d: d, rep: rep, runs: 30000 * scale})
 			}
 		}
 	}
 	for _, cp := range []int{2, 3, 4} {
 		// (the tolerance formula needs about 10^4 runs at the skewness of these sizes; 1000x: thorough tier only)
 		for _, rep := range []int{1, 3} {
-			cfgs = append(cfgs, statCfg{cp, 100 * cp, rep, 16000 * scale}, statCfg{cp, 400 * cp, rep, 12000 * scale})
+			// (round 6: 24000 / 28000 runs, were 16000 / 12000 -- with those, one or two of these twelve configurations per
+			// run had a sample skewness for which no z <= 40 met the budget)
+			cfgs = append(cfgs, statCfg{cp: cp, d: 100 * cp, rep: rep, runs: 24000 * scale}, statCfg{cp: cp, d: 400 * cp, rep: rep, runs: 28000 * scale})
 			if tier == "thorough" {
-				cfgs = append(cfgs, statCfg{cp, 1000 * cp, rep, 2000 * scale})
+				cfgs = append(cfgs, statCfg{cp: cp, d: 1000 * cp, rep: rep, runs: 2000 * scale})
 			}
 		}
 	}
@@ -626,9 +634,11 @@ func stat(args []string) {
 			if cp > 1000 {
 				runs = 1600
 			}
-			cfgs = append(cfgs, statCfg{cp, d, 1 + d%2*2, runs * scale})
+			cfgs = append(cfgs, statCfg{cp: cp, d: d, rep: 1 + d%2*2, runs: runs * scale})
 		}
 	}
+	// round 6: runs separated by Reset on one counter, trajectories, many fresh counters (stat6.go)
+	cfgs = append(cfgs, resetConfigs(scale)...)
 	budget := 1e-10 / float64(len(cfgs))
 	type res struct {
 		cfg                 statCfg
@@ -638,6 +648,8 @@ func stat(args []string) {
 		maxLen              int
 		ok                  bool
 		streamLen, distinc  int
+		pi                  float64 // traj: the chance that two independent runs coincide
+		traj                []trajAssertion
 	}
 	results := make([]res, len(cfgs))
 	var wg sync.WaitGroup
@@ -651,26 +663,59 @@ func stat(args []string) {
 			defer func() { <-sem }()
 			r := tr.NewRand(seed*7919 + uint64(ci)) // the STREAM depends on the seed; the counters draw fresh entropy
 			ops := stream(r, cfg.d, cfg.rep, 0)
+			if cfg.traj { // d distinct values, each once, in order (what collisionProb models)
+				ops = ops[:0]
+				for v := 0; v < cfg.d; v++ {
+					ops = append(ops, op{true, v})
+				}
+			}
+			var keys [][32]byte
+			var th *trajHash
+			if cfg.traj {
+				keys = make([][32]byte, cfg.runs)
+				th = newTrajHash()
+			}
 			dist := map[int]bool{}
 			for _, o := range ops {
 				dist[o.v] = true
 			}
 			xs := make([]float64, cfg.runs)
 			exceeded, maxLen := 0, 0
+			var c *distinct.Counter[int]
 			for i := 0; i < cfg.runs; i++ {
-				c := distinct.NewCounter[int](cfg.cp) // the real constructor: fresh entropy from crypto/rand
+				if cfg.reset == 0 || i%cfg.reset == 0 {
+					c = distinct.NewCounter[int](cfg.cp) // the real constructor: fresh entropy from crypto/rand
+					if cfg.reset > 0 && (i/cfg.reset)%2 == 1 {
+						c.Reset() // (a Reset before the first Add, on every other block)
+					}
+				} else {
+					if cfg.dirty {
+						// the counter is used on another stream first: 0 .. 64*size-1 values nobody looks at
+						for j, n := 0, (i*7919)%(64*cfg.cp); j < n; j++ {
+							c.Add(1000000 + j)
+						}
+					}
+					c.Reset()
+				}
 				ex := false
 				for _, o := range ops {
 					c.Add(o.v)
-					if l := c.Len(); l > cfg.cp {
+					l := c.Len()
+					if l > cfg.cp {
 						ex = true
 						maxLen = max(maxLen, l)
+					}
+					if th != nil {
+						th.add(l, c.Count())
 					}
 				}
 				if ex {
 					exceeded++
 				}
 				xs[i] = float64(c.Count())
+				if th != nil {
+					keys[i] = th.sum()
+				}
 			}
 			nf := float64(cfg.runs)
 			var sum float64
@@ -696,11 +741,21 @@ func stat(args []string) {
 			se := math.Sqrt(math.Max(vr, 0.25) / nf)
 			tol := z * se
 			ok := math.Abs(mean-want) <= tol
+			if !(bound <= budget) { // (also NaN: 0 * Inf at z = 40)
+				// (round 6) too few runs for this skewness: no z up to 40 meets the budget, so the mean is
+				// reported but not asserted (does not happen with the run counts chosen below)
+				ok, bound, tol = true, 0, math.Inf(1)
+			}
 			if exact {
 				ok = vr == 0 && mean == want // exact regime: every single run must be exact
 				z, bound, tol, se = 0, 0, 0, 0
 			}
-			results[ci] = res{cfg, mean, sd, se, tol, skew, z, bound, (mean - want) / math.Max(se, 1e-300), exceeded, maxLen, ok, len(ops), len(dist)}
+			rs := res{cfg, mean, sd, se, tol, skew, z, bound, (mean - want) / math.Max(se, 1e-300), exceeded, maxLen, ok, len(ops), len(dist), 0, nil}
+			if cfg.traj {
+				rs.pi = collisionProb(cfg.cp, cfg.d)
+				rs.traj = trajectoryTests(keys, cfg.reset, rs.pi)
+			}
+			results[ci] = rs
 		}()
 	}
 	wg.Wait()
@@ -708,28 +763,85 @@ func stat(args []string) {
 	var rows []map[string]any
 	totalRuns, totalExceeded := 0, 0
 	totalBound := 0.0
+	nAssert, totalTrajBound := 0, 0.0
 	for _, x := range results {
 		row := map[string]any{"cap": x.cfg.cp, "distinct": x.distinc, "stream_len": x.streamLen, "runs": x.cfg.runs,
-			"mean_count": x.mean, "sd": x.sd, "skewness": x.skew, "std_err": x.se, "z": x.z, "tolerance": x.tol,
+			"mean_count": x.mean, "sd": x.sd, "skewness": x.skew, "std_err": x.se, "z": x.z, "tolerance": math.Min(x.tol, math.MaxFloat64),
 			"false_alarm_estimate": x.bound, "runs_with_len_over_cap": x.exceeded, "ok": x.ok}
 		if x.z > 0 {
 			row["deviation_in_std_errs"] = x.dev
+		}
+		if math.IsInf(x.tol, 1) {
+			row["mean_asserted"] = false
+		}
+		if x.cfg.reset > 0 {
+			row["runs_per_counter_separated_by_Reset"] = x.cfg.reset
+			row["other_use_between_runs"] = x.cfg.dirty
+		}
+		how := ""
+		if x.cfg.reset > 0 {
+			how = fmt.Sprintf(" reset-separated-runs-per-counter=%d dirty=%v", x.cfg.reset, x.cfg.dirty)
+		}
+		if x.cfg.traj {
+			row["chance_two_independent_runs_coincide"] = x.pi
+			var ta []map[string]any
+			for _, a := range x.traj {
+				nAssert++
+				totalTrajBound += a.bound
+				m := map[string]any{"pairs": a.name, "n": a.pairs, "identical": a.identical, "ok": a.ok, "false_alarm_bound": a.bound}
+				if a.threshold <= a.pairs {
+					m["identical_must_stay_below"] = a.threshold
+				} else {
+					m["asserted"] = false
+				}
+				ta = append(ta, m)
+				how += fmt.Sprintf(" %s:%d/%d(<%d)", a.name, a.identical, a.pairs, a.threshold)
+			}
+			row["trajectories"] = ta
+			how += fmt.Sprintf(" pi=%.3g", x.pi)
 		}
 		rows = append(rows, row)
 		totalRuns += x.cfg.runs
 		totalExceeded += x.exceeded
 		totalBound += x.bound
-		fmt.Printf("stat cap=%d distinct=%d stream=%d runs=%d mean=%.4f sd=%.3f skew=%.2f z=%.2f tol=%.4f len>cap-in-runs=%d %v\n",
-			x.cfg.cp, x.distinc, x.streamLen, x.cfg.runs, x.mean, x.sd, x.skew, x.z, x.tol, x.exceeded, x.ok)
+		fmt.Printf("stat cap=%d distinct=%d stream=%d runs=%d mean=%.4f sd=%.3f skew=%.2f z=%.2f tol=%.4f len>cap-in-runs=%d %v%s\n",
+			x.cfg.cp, x.distinc, x.streamLen, x.cfg.runs, x.mean, x.sd, x.skew, x.z, x.tol, x.exceeded, x.ok, how)
+		in := fmt.Sprintf("stat:cap=%d,distinct=%d,stream_len=%d,rep=%d,runs=%d,seed=%d", x.cfg.cp, x.distinc, x.streamLen, x.cfg.rep, x.cfg.runs, seed)
+		if x.cfg.reset > 0 {
+			in += fmt.Sprintf(",runs_per_counter_separated_by_Reset=%d,other_use_between_runs=%v", x.cfg.reset, x.cfg.dirty)
+		}
+		for _, a := range x.traj {
+			if !a.ok {
+				bad++
+				what := "on one counter, separated by Reset, " + a.name
+				if a.name == "all-pairs" {
+					what = "any two runs of the configuration"
+					if x.cfg.reset == 0 {
+						what = "any two fresh counters"
+					}
+				}
+				fmt.Printf("FAIL input=%s reason=identical-(Len,Count)-trajectories:%d-of-%d-pairs-of-runs(%s),independent-runs-coincide-with-probability-%.3g-per-pair:at-most-%d-allowed(false-alarm-bound-%.1e)\n",
+					in, a.identical, a.pairs, strings.ReplaceAll(what, " ", "-"), x.pi, a.threshold-1, a.bound)
+			}
+		}
 		if !x.ok {
 			bad++
-			fmt.Printf("FAIL input=stat:cap=%d,distinct=%d,stream_len=%d,rep=%d,runs=%d,seed=%d reason=mean-of-Count=%.4f,true-distinct=%d,tolerance(%.2f-std-errors)=%.4f\n",
-				x.cfg.cp, x.distinc, x.streamLen, x.cfg.rep, x.cfg.runs, seed, x.mean, x.distinc, x.z, x.tol)
+			fmt.Printf("FAIL input=%s reason=mean-of-Count=%.4f,true-distinct=%d,tolerance(%.2f-std-errors)=%.4f\n",
+				in, x.mean, x.distinc, x.z, x.tol)
 		}
 	}
-	b, _ := json.Marshal(map[string]any{"what": "mean of Count over independent real counters (NewCounter, crypto/rand seeds) on fixed streams with repeats (the streams depend on the seed); tolerance z standard errors, z >= 8 chosen per configuration from the sample skewness so that the estimated false-alarm chance of the whole run is below 1e-10; supporting evidence only",
+	if nAssert > trajAsserts {
+		fmt.Printf("stat: %d trajectory assertions, the budget was laid out for %d\n", nAssert, trajAsserts)
+		os.Exit(2)
+	}
+	b, err := json.Marshal(map[string]any{"what": "mean of Count over independent real counters (NewCounter, crypto/rand seeds) on fixed streams with repeats (the streams depend on the seed); tolerance z standard errors, z >= 8 chosen per configuration from the sample skewness so that the estimated false-alarm chance of the whole run is below 1e-10; round 6: also over runs separated by Reset on ONE counter (a fresh counter per block of runs; with and without other use of the counter between two runs), and the (Len, Count) trajectories of the runs of a configuration compared with each other -- runs on one counter at lags 1, 2, 3, 5, 8 and all pairs, several thousand fresh counters all pairs -- against the exactly computed chance that two independent runs coincide (proven false-alarm bound, sum below 1e-11); supporting evidence only",
 		"configs": rows, "total_runs": totalRuns, "runs_in_which_len_exceeded_cap_(F8)": totalExceeded,
-		"false_alarm_estimate_total": totalBound, "seed": seed, "wall_s": time.Since(t0).Seconds()})
+		"false_alarm_estimate_total": totalBound, "trajectory_assertions": nAssert, "trajectory_false_alarm_bound_total": totalTrajBound,
+		"seed": seed, "wall_s": time.Since(t0).Seconds()})
+	if err != nil {
+		fmt.Println("stat: cannot encode the report:", err)
+		os.Exit(2)
+	}
 	fmt.Println("EXTRA-JSON " + string(b))
 	if bad > 0 {
 		os.Exit(1)
@@ -744,6 +856,13 @@ func main() {
 		return
 	}
 	o := tr.ParseFlags()
+	if distinct.NewCounterWithSource[int](2, &source{}) == nil {
+		// (round 6) the hook could not put a scripted source into the counter: its source field no longer
+		// holds an arbitrary rand.Source.  No trace line can be produced; the statistical step (-stat),
+		// which uses the public API only, still runs.
+		fmt.Fprintln(os.Stderr, "distincttrace: the scripted random source cannot be installed in distinct.Counter (its source field does not hold a rand.Source any more): the correspondence cannot be run on this tree")
+		os.Exit(3)
+	}
 	w := tr.NewW(o.Out)
 	if o.Replay != "" {
 		for _, in := range tr.ReplayInputs(o.Replay) {
